@@ -503,11 +503,11 @@ def rule_pairing(repo):
             ok2 = False
             if len(sl) == 1:
                 xv = norm(sl[0].target)
-                for i in [s for s in sl[0].body if isinstance(s, ast.If)]:
-                    t = norm(i.test)
-                    conj = [norm(v) for v in i.test.values] if isinstance(i.test, ast.BoolOp) and isinstance(i.test.op, ast.And) else [t]
-                    if (f"{xv}.slice_overlap({obj})" in conj or f"{obj}.slice_overlap({xv})" in conj) and f"{xv} in {mapname}" in conj and len(conj) == 2 \
-                            and any(norm(b) == f"{lst}.append({xv})" for b in i.body) \
+                ov = {(f"{xv}.slice_overlap({obj})", True), (f"{obj}.slice_overlap({xv})", True)}
+                for a_ in [n for n in ast.walk(sl[0]) if isinstance(n, ast.Call) and norm(n) == f"{lst}.append({xv})"]:
+                    # the guards of the append, however they are nested / conjoined: exactly {overlaps, is written}
+                    atoms = set(guard_atoms(a_, stop=sl[0], canonical=True))
+                    if len(atoms) == 2 and atoms & ov and (f"{xv} in {mapname}", True) in atoms \
                             and not any(isinstance(z, (ast.Break, ast.Return)) for z in ast.walk(sl[0])):
                         ok2 = True     # every overlapping written sibling is collected (no early exit after the first hit)
             (r.ok if ok2 else r.bad)(m, FN, f"{side}: overlapping sibling slices of the read object are paired",
@@ -2014,6 +2014,8 @@ MUTANTS = [
 ]
 
 EQUIV = [
+    _m('pairing-sibling-test-as-nested-ifs', GENDAG, "          if x.slice_overlap( obj ) and x in write_upblks:\n            writers.append( x )\n",
+       "          if x.slice_overlap( obj ):\n            if x in write_upblks:\n              writers.append( x )\n"),
     _m('openloop-callee-filter-as-named-predicate', OPENLOOP, "    top_level_callee_ports = top.get_all_object_filter(\n      lambda x: isinstance(x, CalleePort) and x.get_host_component() is top )\n",
        "    def is_top_level_callee_port( x ):\n      return isinstance(x, CalleePort) and x.get_host_component() is top\n\n    top_level_callee_ports = top.get_all_object_filter( is_top_level_callee_port )\n"),
     _m('visit-for-one-loop-over-body-and-orelse', ASTH, "    for stmt in node.body:\n      self.visit( stmt )\n    for stmt in node.orelse:\n      self.visit( stmt )\n",
